@@ -79,11 +79,18 @@ def generator_call_model(ev, fv, args, kwargs, node):
     return None
 
 
+def _empty_outs(ev):
+    """ghost initialisation: the output list starts empty"""
+    o = ev.st.obj(ev.st.ghost["outs"])
+    o.length = z3.IntVal(0)
+
+
 ENSURE_NEXT = Contract(
     id="wsgi.ensure_next", file=WM, qualname="ensure_next", props=["C20"],
     params={"iterable": ObjT("Iterable", items=ITEMS, reiterable=Bool)},
     ghosts={"outs": ITEMS, "it": ObjT("ItGhost", n_iter=Int)},
-    requires=["len(outs) == 0", "it.n_iter == 0"],
+    requires=["it.n_iter == 0"],
+    setup=lambda ev: _empty_outs(ev),
     stub_methods={("Iterable", "__iter__"): iterable_iter, ("Iterator", "__next__"): iterator_next},
     on_yield=relay_yield, on_yield_from=relay_yield_from, yield_mods=("outs",),
     ghost_modifies=["outs", "it"], frame_check=False,
